@@ -83,8 +83,99 @@ COMBOS = [(k, w, r, st) for k in ("dir", "file") for w in (True, False) for r in
 PLACEMENTS = ["tree", "src_name", "dst_name", "dst_parent", "src_parent"]
 
 
+CLS_CYCLE = ["single", "concurrent", "retransfer", "single", "concurrent", "single", "retransfer", "concurrent", "single",
+             "retransfer"]
+ROUTE_KINDS = {  # route kinds of the re-transfer / concurrent classes -> concrete (src, dst) pairs
+    "LL": [("L", "L")],
+    "l2r": [("L", "A"), ("L", "B"), ("L", "W")],
+    "r2l": [("A", "L"), ("B", "L"), ("W", "L")],
+    "r2r": [("A", "B"), ("B", "A"), ("B", "W"), ("W", "B"), ("A", "W"), ("W", "A")],
+    "same-remote": [("A", "A"), ("B", "B"), ("W", "W")],
+}
+
+
+def route_kind(s: str, d: str, w_mapped: bool = False) -> str:
+    if (s, d) == ("W", "A") and w_mapped:
+        # a source under W's bind mount is also registered at its inner path on A: for the data manager the
+        # copy is already on A and the transfer becomes a same-location copy there
+        return "same-remote"
+    return next(k for k, v in ROUTE_KINDS.items() if (s, d) in v)
+
+
+def _source(rng, thorough, kind, big=False):
+    sizes = T.SIZES_SMALL + (T.SIZES_MEDIUM if (big or rng.random() < 0.4) else [])
+    if kind == "file":
+        name = rng.choice(["one.dat", "f", "run.sh", "日本.bin", "a-b_c.txt"])
+        tree = [{"p": "", "k": "f", "n": rng.choice(sizes), "s": rng.randrange(1 << 30), "x": rng.choice([0o644, 0o755, 0o600, 0o711, 0o750])}]
+    else:
+        name = rng.choice(["src", "data.d", "in_1", "étude", "x.y-z"])
+        tree = T.gen_tree(rng, max_entries=20 if thorough else 10, names=T.PLAIN + T.UNICODE, sizes=sizes, symlinks=True,
+                          max_total=2_000_000 if thorough else 400_000)
+    return name, tree
+
+
+def gen_concurrent(sh: Shard, idx: int, rng) -> dict:
+    """2..4 transfers of ONE registered source started together / staggered; transfer 0 may be held behind the
+    connector's stream gate (slow link) while the others start."""
+    thorough = not sh.quick()
+    kind = rng.choice(["dir", "file"])
+    src_name, tree = _source(rng, thorough, kind, big=True)
+    src_loc = rng.choice(LOCS)
+    first_dst = rng.choice([x for x in LOCS if x != src_loc] * 3 + [src_loc])
+    xfers = []
+    for i in range(rng.randint(2, 4)):
+        d = first_dst if (i == 0 or rng.random() < 0.65) else rng.choice(LOCS)
+        xfers.append({"dst_loc": d, "writable": rng.random() < (0.35 if i == 0 else 0.5),
+                      "dst_name": src_name if rng.random() < 0.5 else f"ren{i}", "parent": rng.choice(["missing", "exists"]),
+                      "start": 0 if i == 0 else rng.choice(["after-registration"] * 3 + [0, rng.randint(1, 30)]),
+                      "gated": i == 0 and rng.random() < 0.75})
+    return {"idx": idx, "cls": "concurrent", "src_loc": src_loc, "kind": kind, "src_name": src_name, "tree": tree,
+            "w_mapped": rng.random() < 0.75, "xfers": xfers, "hostile": None, "placement": None}
+
+
+def _new_version(rng, e: dict) -> dict:
+    how = rng.choice(["longer", "shorter", "empty", "same-size", "exec-only"])
+    n = e["n"]
+    e2 = dict(e, s=rng.randrange(1 << 30))
+    if how == "longer":
+        e2["n"] = n + rng.choice([1, 100, 513, 5000])
+    elif how == "shorter":
+        e2["n"] = rng.randint(0, max(0, n - 1)) if n else 0
+    elif how == "empty":
+        e2["n"] = 0
+    elif how == "exec-only":
+        e2["s"] = e["s"]
+    if how == "exec-only" or rng.random() < 0.4:
+        e2["x"] = 0o644 if (e["x"] & 0o111) else 0o755
+    return e2
+
+
+def gen_retransfer(sh: Shard, idx: int, rng) -> dict:
+    """The destination already holds an earlier version of the source (from a first transfer); the source is
+    regenerated in place (same names; files longer / shorter / empty / exec bit flipped), the stale copy is
+    optionally invalidated in the data manager (what recovery does), and the source is transferred again."""
+    thorough = not sh.quick()
+    kind = rng.choice(["file", "file", "dir"])
+    src_name, tree = _source(rng, thorough, kind)
+    if kind == "dir" and not any(e["k"] == "f" for e in tree):
+        tree = tree + [{"p": "only.bin", "k": "f", "n": 700, "s": rng.randrange(1 << 30), "x": 0o755}]
+    rk = rng.choice(sorted(ROUTE_KINDS))
+    s, d = rng.choice(ROUTE_KINDS[rk])
+    tree2 = [(_new_version(rng, e) if (e["k"] == "f" and (kind == "file" or rng.random() < 0.7)) else dict(e)) for e in tree]
+    return {"idx": idx, "cls": "retransfer", "src_loc": s, "dst_loc": d, "kind": kind, "src_name": src_name, "tree": tree,
+            "tree2": tree2, "dst_name": src_name if (kind == "dir" or rng.random() < 0.5) else "renamed",
+            "parent": rng.choice(["missing", "exists"]),
+            "writable1": rng.random() < 0.5, "writable2": rng.random() < 0.5, "invalidate": rng.choice(["none", "dst", "dst", "both"]),
+            "w_mapped": rng.random() < 0.75, "hostile": None, "placement": None}
+
+
 def gen_case(sh: Shard, idx: int) -> dict:
     rng = sh.rng("case", idx)
+    cls = CLS_CYCLE[(idx + idx // len(ROUTES)) % len(CLS_CYCLE)]
+    if cls == "concurrent":
+        return gen_concurrent(sh, idx, rng)
+    if cls == "retransfer":
+        return gen_retransfer(sh, idx, rng)
     # the 16 routes cycle fastest (any 16 consecutive case numbers, and any shard, see all of them); the 24
     # (kind, writable, renamed, destination state) combinations follow in a seeded order per route
     s, d = ROUTES[(idx + idx // len(ROUTES)) % len(ROUTES)]
@@ -237,7 +328,204 @@ async def one_transfer(env, src_key, src, dst_key, dst, writable, timeout, early
         return "raise", f"{type(e).__name__}: {str(e)[:300]}"
 
 
+def _materialise(case, src, tree):
+    import hashlib
+
+    if case["kind"] == "file":
+        T.materialise_file(src, tree[0])
+        e = tree[0]
+        return {".": ("f", hashlib.sha256(T.file_bytes(e)).hexdigest()[:24], e["x"] & 0o111)}
+    os.makedirs(os.path.dirname(src), exist_ok=True)
+    T.materialise(src, tree)
+    return norm(T.expected_digest(tree))
+
+
+def run_concurrent(sh: Shard, R: Runner, case: dict) -> None:
+    from vf.harness.c22_env import XFER, C22Shell
+
+    env = R.ensure_env()
+    sbase = R.base(env, case["src_loc"], case)
+    bases = {sbase}
+    src = os.path.join(sbase, "S", "sp", case["src_name"])
+    dsts = []
+    for i, x in enumerate(case["xfers"]):
+        b = R.base(env, x["dst_loc"], case)
+        bases.add(b)
+        dsts.append(os.path.join(b, "D", f"dp{i}", x["dst_name"]))
+    try:
+        for b in bases:
+            shutil.rmtree(b, ignore_errors=True)
+        want = _materialise(case, src, case["tree"])
+        if norm(T.digest(src)) != norm(want):
+            sh.inconclusive_because(f"harness: materialised source differs from its spec (case {case['idx']})")
+            return
+        for x, dst in zip(case["xfers"], dsts):
+            if x["parent"] == "exists":
+                os.makedirs(os.path.dirname(dst), exist_ok=True)
+        env.clear_logs()
+        dm = env.ctx.data_manager
+        dm.register_path(env.locs[case["src_loc"]], src, case["src_name"])
+        tasks: dict = {}
+        started = set()
+        observed = {"gate_waits": 0, "gate_released_by": None, "overlap": 0}
+
+        async def gate(xid, kind):
+            """Hold a gated transfer's stream until every other transfer of the group has returned, or until
+            they have all started and nothing moved for 40 polls (they wait for us: what the pinned code does)."""
+            if xid is None or not case["xfers"][xid]["gated"]:
+                return
+            observed["gate_waits"] += 1
+            quiet, last, polls = 0, -1, 0
+            while True:
+                others = [t for j, t in tasks.items() if j != xid]
+                if len(started) == len(case["xfers"]) and all(t.done() for t in others):
+                    observed["gate_released_by"] = "others-returned"
+                    return
+                await asyncio.sleep(0.01)
+                polls += 1
+                mark = (len(C22Shell.LOG), len(started))
+                quiet = quiet + 1 if mark == last else 0
+                last = mark
+                if (quiet >= 40 and len(started) == len(case["xfers"])) or polls > 1500:
+                    observed["gate_released_by"] = "others-stalled" if quiet >= 40 else "poll-limit"
+                    return
+
+        async def one(i):
+            x = case["xfers"][i]
+            XFER.set(i)
+            if x["start"] == "after-registration":
+                # start as soon as transfer 0 has registered its (not yet available) destination
+                l0 = env.locs[case["xfers"][0]["dst_loc"]]
+                for _ in range(20000):
+                    if dm.get_data_locations(dsts[0], l0.deployment, l0.name) or tasks[0].done():
+                        break
+                    await asyncio.sleep(0)
+            else:
+                for _ in range(x["start"]):
+                    await asyncio.sleep(0)
+            started.add(i)
+            if i != 0 and not tasks[0].done():
+                observed["overlap"] += 1
+            try:
+                await dm.transfer_data(env.locs[case["src_loc"]], src, [env.locs[x["dst_loc"]]], dsts[i], writable=x["writable"])
+                return "ok", ""
+            except Exception as e:
+                return "raise", f"{type(e).__name__}: {str(e)[:300]}"
+
+        async def group():
+            for i in range(len(case["xfers"])):
+                tasks[i] = asyncio.ensure_future(one(i))
+            done, pending = await asyncio.wait(set(tasks.values()), timeout=sh.pick(90, 180))
+            for t in pending:
+                t.cancel()
+            if pending:
+                await asyncio.wait(pending, timeout=10)
+            return [(t.result() if (t.done() and not t.cancelled()) else ("hang", "group watchdog")) for t in tasks.values()]
+
+        C22Shell.GATE = gate
+        try:
+            results = R.loop.run_until_complete(group())
+        finally:
+            C22Shell.GATE = None
+        sh.count("concurrent_groups")
+        sh.count("concurrent_overlapping_starts", observed["overlap"])
+        sh.count(f"gate_released[{observed['gate_released_by']}]")
+        if any(o == "hang" for o, _ in results):
+            env.kill_shells()
+        for i, (x, dst, (outcome, info)) in enumerate(zip(case["xfers"], dsts, results)):
+            c = dict(case, dst_loc=x["dst_loc"], writable=x["writable"], dst_state="parent-" + x["parent"], dst_name=x["dst_name"])
+            judge(sh, env, c, f"{case['src_loc']}>{x['dst_loc']}", src, dst, dst, want, outcome, info, hop=f"c{i}", orig=case,
+                  extra={"concurrent": observed, "xfer": i})
+            sh.count(f"route_{case['src_loc']}>{x['dst_loc']}")
+    finally:
+        for b in bases:
+            shutil.rmtree(b, ignore_errors=True)
+
+
+def retransfer_judged(case) -> bool:
+    """Re-transfer combinations judged with "destination == new version exactly": those where the pinned code
+    demonstrably replaces what is already there (tabulated on the unchanged tree, see design_notes/C22.md).
+    Everything else is recorded only (`retransfer_recorded[...]`):
+    * a first read-only transfer that is not invalidated — the data manager still believes the destination
+      holds the data and turns the second transfer into a copy of the destination onto itself;
+    * writable onto a link left by a read-only transfer on the same file system (SameFileError / cp "same file");
+    * read-only onto a real copy on the same file system (`EEXIST` is ignored by design; `ln` cannot replace a
+      directory); same-location `cp -rf`, which keeps the old file modes."""
+    rk = route_kind(case["src_loc"], case["dst_loc"], case["w_mapped"])
+    w1, w2, inv = case["writable1"], case["writable2"], case["invalidate"] != "none"
+    if rk in ("l2r", "r2l", "r2r"):
+        return w1 or inv
+    if rk == "LL":
+        return w1 and w2
+    if case["kind"] == "file":
+        return not w2  # same-remote: `ln -snf` replaces a file or a link
+    return (not w1) and (not w2)  # same-remote tree: the link left by the first transfer is replaced
+
+
+def run_retransfer(sh: Shard, R: Runner, case: dict) -> None:
+    env = R.ensure_env()
+    sbase, dbase = R.base(env, case["src_loc"], case), R.base(env, case["dst_loc"], case)
+    src = os.path.join(sbase, "S", "sp", case["src_name"])
+    parent = os.path.join(dbase, "D", "dp")
+    isdir = case["kind"] == "dir"
+    # a file is transferred twice to the same path (file onto file); a tree keeps its name and the second
+    # transfer is given the parent directory, so that it lands on the first copy (tree onto same-named tree)
+    dst1 = os.path.join(parent, case["src_name"] if isdir else case["dst_name"])
+    dst2 = parent if isdir else dst1
+    route = f"{case['src_loc']}>{case['dst_loc']}"
+    rk = route_kind(case["src_loc"], case["dst_loc"], case["w_mapped"])
+    dm = env.ctx.data_manager
+    try:
+        for b in {sbase, dbase}:
+            shutil.rmtree(b, ignore_errors=True)
+        want1 = _materialise(case, src, case["tree"])
+        if case["parent"] == "exists":
+            os.makedirs(parent, exist_ok=True)
+        env.clear_logs()
+        dm.register_path(env.locs[case["src_loc"]], src, case["src_name"])
+        timeout = sh.pick(60, 120)
+        c1 = dict(case, writable=case["writable1"], dst_state="parent-" + case["parent"], dst_name=os.path.basename(dst1))
+        outcome, info = R.loop.run_until_complete(one_transfer(env, case["src_loc"], src, case["dst_loc"], dst1, case["writable1"], timeout))
+        judge(sh, env, c1, route, src, dst1, dst1, want1, outcome, info, hop="r1", orig=case)
+        sh.count(f"route_{route}")
+        if outcome == "hang":
+            env.kill_shells()
+        if outcome != "ok" or norm(T.digest(dst1)) != norm(want1):
+            return
+        # the stale copy is invalidated (recovery), the source is produced again in place
+        if case["invalidate"] in ("dst", "both"):
+            dm.invalidate_location(env.locs[case["dst_loc"]], dst1)
+        if case["invalidate"] == "both":
+            dm.invalidate_location(env.locs[case["src_loc"]], src)
+        shutil.rmtree(src) if os.path.isdir(src) and not os.path.islink(src) else os.unlink(src)
+        want2 = _materialise(case, src, case["tree2"])
+        dm.register_path(env.locs[case["src_loc"]], src, case["src_name"])
+        env.clear_logs()
+        outcome2, info2 = R.loop.run_until_complete(one_transfer(env, case["src_loc"], src, case["dst_loc"], dst2, case["writable2"], timeout))
+        if outcome2 == "hang":
+            env.kill_shells()
+        c2 = dict(case, writable=case["writable2"], dst_state="into-dir" if isdir else "parent-exists", dst_name=os.path.basename(dst1))
+        combo = f"{rk}/{case['kind']}/w1={int(case['writable1'])}/w2={int(case['writable2'])}/inv={case['invalidate']}"
+        if retransfer_judged(case):
+            sh.count("retransfer_judged")
+            sh.count(f"retransfer_judged[{rk}/{case['kind']}]")
+            judge(sh, env, c2, route, src, dst2, dst1, want2, outcome2, info2, hop="r2", orig=case,
+                  extra={"retransfer": combo, "previous": want1})
+        else:
+            now = norm(T.digest(dst1))
+            exact = outcome2 == "ok" and now == norm(want2) and registered(env, case["dst_loc"], dst1)
+            sh.count("retransfer_recorded_only")
+            sh.count(f"retransfer_recorded[{rk}/{case['kind']}]={'exact' if exact else ('stale' if now == norm(want1) else 'other:' + outcome2)}")
+    finally:
+        for b in {sbase, dbase}:
+            shutil.rmtree(b, ignore_errors=True)
+
+
 def run_case(sh: Shard, R: Runner, case: dict) -> None:
+    if case.get("cls") == "concurrent":
+        return run_concurrent(sh, R, case)
+    if case.get("cls") == "retransfer":
+        return run_retransfer(sh, R, case)
     env = R.ensure_env()
     sbase, dbase = R.base(env, case["src_loc"], case), R.base(env, case["dst_loc"], case)
     src = os.path.join(sbase, "S", case["src_parent"], case["src_name"])
@@ -346,7 +634,7 @@ def into_dir_spread(case, dst, want) -> bool:
     return spread == norm(want)
 
 
-def judge(sh, env, case, route, src, dst, final, want, outcome, info, hop, orig=None):
+def judge(sh, env, case, route, src, dst, final, want, outcome, info, hop, orig=None, extra=None):
     got = norm(T.digest(final))
     sh.count("oracle_tree_compared")
     reg = registered(env, case["dst_loc"], final)
@@ -373,6 +661,8 @@ def judge(sh, env, case, route, src, dst, final, want, outcome, info, hop, orig=
     if not problems:
         sh.count("benign_exact" if not paths_hostile else "hostile_path_exact")
         sh.count(f"exact[{hist}]")
+        if isinstance(hop, str):
+            sh.count({"c": "concurrent_exact", "r": "retransfer_exact"}[hop[0]] + ("" if hop != "r1" else "_first"))
         if hop == 1 and sh.shard == 0 and case["kind"] == "dir" and len(case["tree"]) > 3:
             sh.sample({"route": route, "kind": case["kind"], "writable": case["writable"], "dst_state": case["dst_state"],
                        "renamed": case["src_name"] != case["dst_name"], "entries": len(want), "hostile": case["hostile"],
@@ -380,6 +670,7 @@ def judge(sh, env, case, route, src, dst, final, want, outcome, info, hop, orig=
         return
     wit = {"case": orig or case, "hop": hop, "route": route, "src": src, "dst": dst, "final": final, "outcome": outcome, "info": info,
            "registered": reg, "problems": problems, "log": env.logs()[:12]}
+    wit.update(extra or {})
     mech = None
     diff = T.diff_digests(norm(want), got)
     remote_pair = case["src_loc"] != "L" and case["dst_loc"] != "L" and case["src_loc"] != case["dst_loc"]
@@ -398,7 +689,8 @@ def judge(sh, env, case, route, src, dst, final, want, outcome, info, hop, orig=
     # (2) directory copied *into* an existing directory: data manager registers dst/<name>, the copy routine
     #     put the content directly under dst
     elif (outcome == "ok" and case["kind"] == "dir" and case["dst_state"] == "into-dir" and src_same
-          and (got is None or got == {".": ("d",)}) and into_dir_spread(case, dst, want)):
+          and (got is None or got == {".": ("d",)} or (extra and got == norm(extra.get("previous"))))
+          and into_dir_spread(case, dst, want)):
         mech = MECH_INTO
     # (3) hostile path components reaching a shell raw
     elif paths_hostile:
